@@ -6,7 +6,7 @@ D=$1; P=$2; T=${3:-quick}
 cd /repo || exit 2
 if ! git diff --quiet; then echo "/repo has uncommitted changes"; exit 2; fi
 git apply "$D" || { echo "cannot apply"; exit 2; }
-/verif/check "$P" "$T"; RC=$?
+timeout 1500 /verif/check "$P" "$T"; RC=$?
 git -C /repo checkout -- .
 echo "== patch $D -> $P $T exit $RC"
 exit 0
